@@ -3,8 +3,10 @@
 For every (derivative order n, approximation order, strategy) accepted by the REAL finite_diff_coeffs, the returned
 coefficients c_i and shifts s_i (read as the exact rationals of the floats) are checked on ALL polynomials of degree
 d = n + approx_order - 1 at ALL base points x and step sizes h in the stated box:
-    | sum_i c_i p(x + s_i h) - h^n p^(n)(x) | <= 1e-9 * sum |a_k|          (x in [-1,1], h in (0,1]),
-one z3 query per monomial x^k (sound by linearity in the polynomial coefficients), with x and h symbolic.  That is exactly
+    | sum_i c_i (x + s_i h)^k - h^n (x^k)^(n) | <= 1e-12 * sum_i |c_i| (1 + |s_i|)^k     (x in [-1,1], h in (0,1]),
+one z3 query per monomial x^k (sound by linearity in the polynomial coefficients), with x and h symbolic.  The right-hand side is
+the magnitude of the terms being cancelled: the coefficients are floats obtained from a linear solve, so the rule is exact up to a
+RELATIVE rounding error of its terms (an absolute 1e-9 was a false alarm of this check on the 10-point rules, whose terms reach 1e10).  That is exactly
 "the rule differentiates every polynomial up to the degree its order promises", i.e. a truncation error of O(h^approx_order).
 A degree d+1 monomial must NOT be reproduced exactly (the order is not under-stated) for centred/odd cases where stated.
 """
@@ -20,7 +22,11 @@ from pennylane.gradients.finite_difference import finite_diff_coeffs
 
 from vf.common import DISCHARGED, VIOLATED, INCONCLUSIVE
 
-TOL = 1e-9
+TOL = 1e-12  # relative to sum_i |c_i| (1 + |s_i|)^k
+
+
+def scale(cs, k):
+    return max(1.0, sum(abs(float(c)) * (1 + abs(float(s))) ** k for c, s in zip(cs[0], cs[1])))
 
 
 def rv(x):
@@ -52,9 +58,9 @@ def replay(p):
         for x in (0.0, 0.37, -1.0):
             for h in (1.0, 0.25):
                 lhs, rhs = _eval_rule(cs, k, x, h, n)
-                if abs(lhs - rhs) > worst:
-                    worst, where = abs(lhs - rhs), (k, x, h, lhs, rhs)
-    return worst > 1e-6, f"finite_diff_coeffs({n}, {o}, {st!r}) = {cs.tolist()}: largest error on a monomial of degree < n+order: {worst:.3g} at (k, x, h, rule, exact) = {where}"
+                if abs(lhs - rhs) / scale(cs, k) > worst:
+                    worst, where = abs(lhs - rhs) / scale(cs, k), (k, x, h, lhs, rhs)
+    return worst > 1e-11, f"finite_diff_coeffs({n}, {o}, {st!r}) = {cs.tolist()}: largest error (relative to the magnitude of the cancelled terms) on a monomial of degree < n+order: {worst:.3g} at (k, x, h, rule, exact) = {where}"
 
 
 def work(cfg):
@@ -77,7 +83,21 @@ def work(cfg):
         lhs = z3.Sum([rv(c) * (x + rv(sh) * h) ** k for c, sh in zip(cs[0], cs[1])]) if k > 0 else z3.Sum([rv(c) for c in cs[0]])
         rhs = (h ** n) * z3.RealVal(math.factorial(k) // math.factorial(k - n)) * (x ** (k - n) if k - n > 0 else z3.RealVal(1)) if k >= n else z3.RealVal(0)
         diff = lhs - rhs
-        s.add(z3.Or(diff > rv(TOL), diff < -rv(TOL)))
+        tk = rv(TOL * scale(cs, k))
+        # first a linear relaxation: the error is sum_j e_j x^(k-j) h^j with exact rational e_j; every monomial lies in [-1, 1] on the
+        # box, so replacing the monomials by independent variables m_j in [-1, 1] over-approximates the error (QF_LRA, decided at once)
+        e = [sum(Fraction(float(c)) * math.comb(k, j) * Fraction(float(sh)) ** j for c, sh in zip(cs[0], cs[1])) for j in range(k + 1)]
+        if k >= n:
+            e[n] -= Fraction(math.factorial(k) // math.factorial(k - n))
+        ms = [z3.Real(f"m{j}") for j in range(k + 1)]
+        s1 = z3.Solver()
+        s1.add(*[z3.And(m >= -1, m <= 1) for m in ms])
+        lin = z3.Sum([z3.RealVal(str(ej)) * m for ej, m in zip(e, ms)])
+        s1.add(z3.Or(lin > tk, lin < -tk))
+        q += 1
+        if s1.check() == z3.unsat:
+            continue
+        s.add(z3.Or(diff > tk, diff < -tk))
         r = s.check()
         q += 1
         if r == z3.sat:
@@ -92,7 +112,7 @@ def work(cfg):
             return [{"name": name, "status": INCONCLUSIVE, "symbols": ["x", "h"], "queries": q, "detail": f"monomial x^{k}: z3 unknown"}]
     dt = time.time() - t0
     return [{"name": name, "status": DISCHARGED, "solver": "z3:unsat", "solver_s": round(dt, 3), "time_s": round(dt, 3), "queries": q, "symbols": ["x", "h", "polynomial coefficients (by linearity)"],
-             "detail": f"{cs.shape[1]} points; exact on every polynomial of degree <= {d} for all x in [-1,1], h in (0,1] (tolerance {TOL})"}]
+             "detail": f"{cs.shape[1]} points; exact on every polynomial of degree <= {d} for all x in [-1,1], h in (0,1] (tolerance {TOL} relative to the magnitude of the cancelled terms)"}]
 
 
 def run(ctx):
